@@ -10,7 +10,7 @@ REG32 = ["eax", "ecx", "edx", "ebx", "esp", "ebp", "esi", "edi", "r8d", "r9d", "
 OPCODES = {"mov-load": 0x8B, "mov-store": 0x89, "lea": 0x8D, "add-load": 0x03, "cmp-store": 0x39}
 
 
-def encode_mem(op, reg, base=None, index=None, scale=1, disp=0, addr32=False, rip=False):
+def encode_mem(op, reg, base=None, index=None, scale=1, disp=0, addr32=False, rip=False, riz=False):
     """reg/base/index: register numbers 0..15 (index != 4). Returns the instruction bytes."""
     assert index != 4
     R = (reg >> 3) & 1
@@ -28,7 +28,8 @@ def encode_mem(op, reg, base=None, index=None, scale=1, disp=0, addr32=False, ri
         out += struct.pack("<i", disp)
         return bytes(out)
     ss = {1: 0, 2: 1, 4: 2, 8: 3}[scale]
-    need_sib = index is not None or base is None or (base & 7) == 4
+    # riz: a SIB byte although there is no index (objdump then prints the pseudo index register %riz / %eiz with the scale)
+    need_sib = index is not None or base is None or (base & 7) == 4 or riz
     if base is None:
         # k(,b,c) : mod=0, SIB base=5, disp32
         out.append((0 << 6) | (r3 << 3) | 4)
@@ -55,7 +56,7 @@ def encode_mem(op, reg, base=None, index=None, scale=1, disp=0, addr32=False, ri
     return bytes(out)
 
 
-def att_mem(base=None, index=None, scale=1, disp=0, addr32=False, rip=False):
+def att_mem(base=None, index=None, scale=1, disp=0, addr32=False, rip=False, riz=False):
     """(a, b, c, k) as objdump is expected to spell them (k None when not printed)."""
     regs = REG32 if addr32 else REG64
     if rip:
@@ -63,6 +64,8 @@ def att_mem(base=None, index=None, scale=1, disp=0, addr32=False, rip=False):
     a = "%" + regs[base] if base is not None else None
     b = "%" + regs[index] if index is not None else None
     c = str(scale) if index is not None else None
+    if riz and index is None and base is not None and not ((base & 7) == 4 and scale == 1):
+        b, c = ("%eiz" if addr32 else "%riz"), str(scale)
     if base is None:
         k = hexs(disp)
     elif disp == 0 and (base & 7) != 5:
